@@ -86,6 +86,68 @@ def counter_guard_blocks(fn, g, body):
     return out
 
 
+def worklist_none_edges(facts, fn, g, body, h):
+    """work-list loops (`while let Some(item) = queue.pop()`): when the visited test is applied only to items whose
+    optional identity field is Some, the untested path is harmless provided every item built *inside* the loop carries
+    Some(..) in that field (only items queued before the loop can take it, finitely often).  Returns the None-edges
+    [(switch block, target)] that may be excluded from the search for an unguarded path, or []."""
+    latches = [s for s, hh in g.back_edges() if hh == h]
+    pops = [(b, d) for b, c, a, d in L.calls_to(fn, ["Vec::<T, A>::pop", "VecDeque::<T, A>::pop_front", "VecDeque::<T, A>::pop_back"])
+            if b in body and d and g.dominates(b, latches[0] if latches else b)]
+    if not pops:
+        return []
+    pb, pd = pops[0]
+    oty = fn.locals[pd[0]]
+    if not oty.startswith("std::option::Option<"):
+        return []
+    item_ty = oty[len("std::option::Option<"):-1]
+    adt = None
+    for name, a in facts.adts.items():
+        if name.replace("<R>", "").endswith(item_ty.replace("<R>", "").split("::")[-1]) and item_ty.split("::")[-1] == name.split("::")[-1]:
+            adt = (name, a)
+    if adt is None:
+        return []
+    fl = FL.flow(fn)
+    out = []
+    for b in body:
+        t = fn.term(b)
+        if t[0] != "sw":
+            continue
+        for st in fn.blocks[b][0]:
+            rv = st[2]
+            if rv[0] != "discr" or FL.op_place(t[1]) is None or FL.op_place(t[1])[0] != st[1][0]:
+                continue
+            lty = fn.locals[rv[1][0]]
+            if not lty.startswith("std::option::Option<") or pd[0] not in fl.back_slice([rv[1][0]])[0]:
+                continue
+            # which field of the item type has this type?  every in-loop aggregate of the item type must put Some there
+            idxs = [i for i, f in enumerate(adt[1]["variants"][0]["fields"]) if f[1] == lty] if adt[1].get("variants") else []
+            if len(idxs) != 1:
+                continue
+            i = idxs[0]
+            all_some = True
+            nagg = 0
+            for b2 in body:
+                for st2 in fn.blocks[b2][0]:
+                    r2 = st2[2]
+                    if r2[0] == "agg" and r2[1][0] == "adt" and r2[1][1] == adt[0]:
+                        nagg += 1
+                        op = r2[2][i]
+                        pl = FL.op_place(op)
+                        ok = False
+                        if pl is not None and not pl[1]:
+                            ds = [d for d in fl.defs.get(pl[0], ()) if d[0] == "stmt"]
+                            ok = bool(ds) and all(fn.blocks[d[1]][0][d[2]][2][0] == "agg" and fn.blocks[d[1]][0][d[2]][2][1][:3] == ["adt", "std::option::Option", "Some"] for d in ds)
+                        if not ok:
+                            all_some = False
+            if nagg and all_some:
+                some_t = [tb for v, tb in t[2] if v == 1]
+                for s2 in g.succ[b]:
+                    if s2 not in some_t:
+                        out.append((b, s2))
+    return out
+
+
 def check_ref_loops(ctx, rule, fn, loaders, label=None, require=1):
     """returns number of guarded / reported loops"""
     g = CF.cfg(fn)
@@ -127,6 +189,12 @@ def check_ref_loops(ctx, rule, fn, loaders, label=None, require=1):
         if tests:
             gg = CF.cfg(fn, thread=True)
             w = gg.path(h, set(targets) - set(tests), avoid_blocks=tests)
+            if w is not None:
+                ne = worklist_none_edges(ctx.facts, fn, gg, body, h)
+                if ne and gg.path(h, set(targets) - set(tests), avoid_blocks=tests, avoid_edges=ne) is None:
+                    ctx.ok(rule, key, "work-list loop: the visited test guards every item queued inside the loop (their identity field is "
+                           "always Some); only the items queued before the loop bypass it", fn.where(h))
+                    continue
         if not tests or w is not None:
             ctx.violation(rule, key, "the loop at %s follows object references (%s) and decides its next iteration from what it loaded, "
                           "but no visited-set test or iteration counter guards the load: a reference cycle in the file makes it run "
@@ -138,6 +206,111 @@ def check_ref_loops(ctx, rule, fn, loaders, label=None, require=1):
 
 
 GUARD_CALLS = ["StackSafeContext::enter", "RecursionGuard::new", "StackSafeContext::check_depth", "enter_scope"]
+
+
+_INTS = ("u8", "u16", "u32", "u64", "usize", "i32", "i64", "isize")
+
+
+def depth_guard_field(fn):
+    """name of the counter field if fn is a depth guard: it compares a field of its receiver with an
+    integer constant, returns a Result, and increments that same field (`self.f += c`)"""
+    if not fn.ret or not fn.ret.startswith("std::result::Result"):
+        return None
+    copies = {}
+    cmp_fields = set()
+    inc_fields = set()
+
+    def field_of(op):
+        pl = FL.op_place(op)
+        if pl is None:
+            return None
+        if pl[1]:
+            fs = [p[2] for p in pl[1] if isinstance(p, list) and p[0] == "f"]
+            return fs[-1] if fs and pl[0] == 1 else None
+        return copies.get(pl[0])
+    for blk in fn.blocks:
+        for st in blk[0]:
+            pl, rv = st[1], st[2]
+            if rv[0] == "use" and not pl[1]:
+                f = field_of(rv[1])
+                if f:
+                    copies[pl[0]] = f
+    tup = {}
+    for blk in fn.blocks:
+        for st in blk[0]:
+            pl, rv = st[1], st[2]
+            if rv[0] == "bin" and rv[1] in ("Ge", "Gt", "Lt", "Le"):
+                for a, b in ((rv[2], rv[3]), (rv[3], rv[2])):
+                    if b[0] == "k" and isinstance(b[2], int) and not isinstance(b[2], bool) and field_of(a):
+                        cmp_fields.add(field_of(a))
+            if rv[0] == "bin" and rv[1].startswith("Add") and not pl[1]:
+                for a, b in ((rv[2], rv[3]), (rv[3], rv[2])):
+                    if b[0] == "k" and isinstance(b[2], int) and b[2] > 0 and field_of(a):
+                        tup[pl[0]] = field_of(a)
+    for blk in fn.blocks:
+        for st in blk[0]:
+            pl, rv = st[1], st[2]
+            if pl[1] and pl[0] == 1 and rv[0] == "use":
+                fs = [p[2] for p in pl[1] if isinstance(p, list) and p[0] == "f"]
+                src = FL.op_place(rv[1])
+                if fs and src and tup.get(src[0]) == fs[-1]:
+                    inc_fields.add(fs[-1])
+    both = cmp_fields & inc_fields
+    return sorted(both)[0] if both else None
+
+
+def tag_exclusion_guard(facts, fn, comp):
+    """self-recursion over dictionaries bounded to one level by a type tag: every recursive call is dominated (a) by a
+    comparison of the *current* node's /K value with a literal V and (b) by a call to a predicate that reads /K of the
+    *next* node and mentions the same literal V.  With opposite polarities (checked by review, not here) the callee can
+    never satisfy (a) again.  Returns a description or None."""
+    g = CF.cfg(fn)
+    rec = [b for b, c, a, d, t, u in fn.calls() if isinstance(c, dict) and c.get("r") in comp]
+    if not rec:
+        return None
+    own = []      # (block, K, V): eq/ne of get(K) on own data with literal V
+    for b, c, a, d, t, u in fn.calls():
+        if isinstance(c, dict) and L.is_call_to(c, ["PartialEq::eq", "PartialEq::ne"]) and len(a) == 2:
+            for x, y in ((a[0], a[1]), (a[1], a[0])):
+                v = L.resolve_str_operand(fn, y)
+                if v is None:
+                    continue
+                for k in L.dict_key_sources(facts, fn, FL.op_locals(x)):
+                    own.append((b, k, v))
+    nxt = []      # (block, K set, V set): predicate call on the next node
+    for b, c, a, d, t, u in fn.calls():
+        f2 = facts.fns.get(c.get("r")) if isinstance(c, dict) else None
+        if f2 is None or f2.id in comp:
+            continue
+        grp = [f2] + [x for k2, x in facts.fns.items() if k2.startswith(f2.id + "::")]
+        ks, vs = set(), set()
+        for x in grp:
+            ks |= L._keys_in_fn(facts, x, None)
+            vs |= L.fn_strs(x)
+        if ks and (vs - ks) and f2.ret in (None, "bool"):
+            nxt.append((b, ks, vs - ks))
+    found = None
+    for r in rec:
+        ok = False
+        for b1, k, v in own:
+            if not g.dominates(b1, r):
+                continue
+            for b2, ks, vs in nxt:
+                if g.dominates(b2, r) and k in ks and v in vs:
+                    ok = True
+                    found = (k, v)
+        if not ok:
+            return None
+    return "recursion only out of a node whose /%s equals %r into a node whose /%s is tested against %r first" % (found[0], found[1], found[0], found[1])
+
+
+def _acyclic_without(facts, comp, cut, succ):
+    rest = [c for c in comp if c not in cut]
+    rs = set(rest)
+    for c2 in CF.sccs(rest, lambda f: [g for g in succ(f) if g in rs]):
+        if len(c2) > 1 or (c2 and c2[0] in succ(c2[0])):
+            return False
+    return True
 
 
 def check_recursion(ctx, rule, scope, label="scope", allow=None):
@@ -159,7 +332,32 @@ def check_recursion(ctx, rule, scope, label="scope", allow=None):
         n += 1
         key = "recursion:%s" % "+".join(L.short(c) for c in comp if not c.endswith("}"))[:120]
         guarded = None
+        # counter-field guards (`self.depth >= MAX -> Err; self.depth += 1`), called or inline: the functions in which
+        # such a guard dominates every recursive call must cut every cycle of the component
+        cut = set()
+        names = set()
         for f in comp:
+            fn = facts.fns[f]
+            g = CF.cfg(fn)
+            rec = [b for b, c, a, d, t, u in fn.calls() if isinstance(c, dict) and (c.get("r") in comp)]
+            gb = []
+            for b, c, a, d, t, u in fn.calls():
+                f2 = facts.fns.get(c.get("r")) if isinstance(c, dict) else None
+                if f2 is not None and f2.id not in comp and depth_guard_field(f2):
+                    gb.append(b)
+                    names.add(L.short(f2.id))
+            if depth_guard_field(fn):
+                gb.append(0)
+                names.add(L.short(f) + " (inline)")
+            if gb and all(any(g.dominates(x, r) for x in gb) for r in rec):
+                cut.add(f)
+        if cut and _acyclic_without(facts, comp, cut, succ):
+            guarded = "counter-field depth guard %s cuts every cycle" % sorted(names)
+        if not guarded and len([c for c in comp if not facts.fns[c].kind == "Closure"]) == 1:
+            guarded = tag_exclusion_guard(facts, facts.fns[[c for c in comp if facts.fns[c].kind != "Closure"][0]], comp)
+        for f in comp:
+            if guarded:
+                break
             fn = facts.fns[f]
             if L.calls_to(fn, GUARD_CALLS):
                 guarded = "guard call in %s" % L.short(f)
